@@ -570,9 +570,14 @@ func exec(c *sim.Case, out *sim.WorkerOut) (*sim.Violation, bool) {
 	start := c.P("start")
 	switch c.P("kind") {
 	case 0:
-		v, nt = execTyped(c, ordinary(start, func(i int) int { return i*3 - 7 }, func(k int) int { return (k + 7) / 3 }), out, dg)
+		v, nt = execTyped(c, ordinary(start, func(i int) int { return (i - 2) * 3 }, func(k int) int { return k/3 + 2 }), out, dg)
 	case 1:
-		v, nt = execTyped(c, ordinary(start, func(i int) string { return fmt.Sprintf("k%03d", i) }, func(k string) int { var i int; fmt.Sscanf(k, "k%03d", &i); return i }), out, dg)
+		v, nt = execTyped(c, ordinary(start, func(i int) string {
+			if i == 0 {
+				return "" // the zero value of the key type is a key like any other
+			}
+			return fmt.Sprintf("k%03d", i)
+		}, func(k string) int { var i int; fmt.Sscanf(k, "k%03d", &i); return i }), out, dg)
 	case 2:
 		v, nt = execTyped(c, ordinary(start, func(i int) uint16 { return uint16(i * 257) }, func(k uint16) int { return int(k) / 257 }), out, dg)
 	case 3:
